@@ -87,14 +87,17 @@ Proof.
 Qed.
 
 Section Pk.
-Variables wb b pb R : Z.
+Variables wb b pb : Z.
+Variable D : Z -> Prop.
 Variables n size psize rank : nat.
 Variables nk nkp : Z.
-Hypothesis normalize_value_ok_small : normalize_value_ok (fun rb ab => normalize 64 rb ab 0) (2 ^ 62) R.
-Hypothesis normalize_value_ok_big : normalize_value_ok (bnorm wb) (2 ^ (wb - 2)) R.
+Hypothesis normalize_value_ok_small : normalize_value_ok_dom D (fun rb ab => normalize 64 rb ab 0) (2 ^ 62).
+Hypothesis normalize_value_ok_big : normalize_value_ok_dom D (bnorm wb) (2 ^ (wb - 2)).
 Hypothesis Hwb : 2 <= wb.
-Hypothesis Hb : 1 <= b <= R.
-Hypothesis Hpb : 1 <= pb <= R.
+Hypothesis Hb : D b.
+Hypothesis Hpb : D pb.
+Hypothesis Hb_pos : 1 <= b.
+Hypothesis Hpb_pos : 1 <= pb.
 Variables Sn U E Ep M : Z.
 Hypothesis HS : 0 <= Sn.
 Hypothesis HU : 0 <= U.
@@ -122,6 +125,8 @@ Theorem pk_roundtrip (pt : ccol) (sk : list poly) (us : nat -> Z) (epk u : poly)
   dec_glwe wb b pb n size psize sk ct = Some d ->
   forall k, (k < n)%nat -> length (coef d k) = psize /\
     forall P, zn size * b <= P -> zn psize * pb <= P -> 1 <= P ->
+    (exists q, lval P b size (coef (hd [] ct) k) + lvsum P b size (prods_at n size sk (tl ct) k)
+               = lval P b size (coef pt k) + pk_error P sk u epk es k + q * 2 ^ P) /\
     tor_abs P (val_scaled P pb (coef d k) - val_scaled P b (firstn size (coef pt k)) - pk_error P sk u epk es k)
       <= 2 ^ (P - zn psize * pb).
 Proof.
@@ -155,10 +160,10 @@ Proof.
       eapply Forall2_impl'; [|exact Hseq].
       intros [i [s c]] tm _ Hst. cbn [fst snd] in *. unfold sk_term, sk_src in Hst.
       destruct (cmap_opt_nth _ _ _ Hst) as [_ Htk]. exact (Htk t Ht). }
-    assert (HX := prods_at_ok wb b R n size rank Hwb Hb Sn HS sk us t Ht Hsk'). fold a in HX.
+    assert (HX := prods_at_ok wb b n size rank Hwb Hb_pos Sn HS sk us t Ht Hsk'). fold a in HX.
     assert (LX : length (prods_at n size sk a t) = rank).
     { unfold prods_at. rewrite map_length, combine_length. lia. }
-    destruct (enc_body_value wb b R size normalize_value_ok_small normalize_value_ok_big Hwb Hb
+    destruct (enc_body_value wb b D size normalize_value_ok_small normalize_value_ok_big Hwb Hb Hb_pos
                 (target_limb nkp b) (Sn * 2 ^ (b - 1)) Ep 0 (prods_at n size sk a t) (map (fun tm => coef tm t) terms)
                 (nthZ epk t) None (coef bodyp t) Hlp ltac:(nia) H2 HX HT (Hepk t Ht) ltac:(intros; discriminate) ltac:(lia)
                 ltac:(rewrite LX; lia) Hbp) as (L & Rg & V).
@@ -198,7 +203,7 @@ Proof.
     intros t Ht. specialize (Hc t Ht). cbn beta in Hc.
     destruct (PKcol i Hi) as [Lpki Bpki].
     destruct (svp_coef_bnd b U n size u (nth i pk []) t ltac:(lia) Ht Hu Bpki) as [LX BX].
-    destruct (pk_coeff_value wb b R size normalize_value_ok_big Hwb Hb (target_limb nk b) (U * 2 ^ (b - 1)) E M
+    destruct (pk_coeff_value wb b D size normalize_value_ok_big Hwb Hb (target_limb nk b) (U * 2 ^ (b - 1)) E M
                 (coef (svp u n size (nth i pk [])) t) (nthZ (nth i es []) t)
                 (match i with O => Some (coef pt t) | _ => None end) (coef (nth i ct []) t)
                 Hl ltac:(nia) LX BX (HE i t Ht)
@@ -226,7 +231,7 @@ Proof.
     intros j. rewrite <- Hc. apply (in_range_bnd_limb b n (nth (S i) ct []) j); [lia| |exact Lc].
     intros t Ht. apply (Vc t Ht). }
   destruct (CTV O ltac:(lia)) as [Lc0 Vc0].
-  destruct (dec_coeff_value wb b pb R size psize normalize_value_ok_big Hwb Hb Hpb (Sn * 2 ^ (b - 1)) (2 ^ (b - 1)) Xs
+  destruct (dec_coeff_value wb b pb D size psize normalize_value_ok_big Hwb Hb Hpb (Sn * 2 ^ (b - 1)) (2 ^ (b - 1)) Xs
               (coef (hd [] ct) k) (coef d k) ltac:(nia) HXs
               ltac:(rewrite Hhd; apply (Vc0 k Hk)) ltac:(rewrite Hhd; apply bnd_in_range; [lia|apply (Vc0 k Hk)])
               ltac:(unfold Xs; rewrite map_length, Lcs; lia) Hdk) as (Ld & Vd).
@@ -311,6 +316,9 @@ Proof.
                       (fun i => nthZ (pmul u (pmul (nth i sk []) (Av i))) k)
                       (fun i => nthZ (pmul (nth i sk []) (nth (S i) es [])) k) w (2 ^ P) rank T1). }
   destruct SUM as [z1 Hz1]. destruct T0 as [z0 Hz0].
+  split.
+  { exists (z1 + z0 + nthZ Q0 k). change (prods_at n size sk (tl ct) k) with Xs.
+    rewrite (Z.add_comm (lval P b size (coef (hd [] ct) k))), DV, Hz1, (HQ0 k Hk), Hz0. unfold pk_error. fold w w'. lia. }
   rewrite lval_firstn.
   replace (val_scaled P pb (coef d k) - lval P b size (coef pt k) - pk_error P sk u epk es k)
     with ((val_scaled P pb (coef d k) - (lvsum P b size Xs + lval P b size (coef (hd [] ct) k)))
@@ -383,6 +391,41 @@ Definition C01_pk_statement : Prop :=
 Lemma pk_roundtrip_value : C01_pk_statement.
 Proof.
   unfold C01_pk_statement. intros wb b pb R n size psize rank nk nkp Sn U E Ep M H1 H2 H3 H4 H5 H6 H7.
-  exact (pk_roundtrip wb b pb R n size psize rank nk nkp H1 H2 H3 H4 H5 Sn U E Ep M H6 H7).
+  intros pt sk us epk u es pk ct d A1 A2 A3 A4 A5 A6 A7 A8 A9 A10 A11 A12 A13 A14 A15 A16 A17 A18 k Hk.
+  destruct (pk_roundtrip wb b pb (fun x => 1 <= x <= R) n size psize rank nk nkp H1 H2 H3 H4 H5 (proj1 H4) Sn U E Ep M H6 H7
+              pt sk us epk u es pk ct d A1 A2 A3 A4 A5 A6 A7 A8 A9 A10 A11 A12 A13 A14 A15 A16 A17 A18 k Hk) as [L V].
+  split; [exact L|]. intros P Q1 Q2 Q3. apply (V P Q1 Q2 Q3).
 Qed.
 
+
+(* error_is_full for public-key encryption: the exact phase of the ciphertext is plaintext + (u*e_pk, e_0, s_i*e_i), each error
+   term with coefficient exactly 1 at its configured precision *)
+Lemma pk_error_is_full :
+  forall (wb b pb R : Z) (n size psize rank : nat) (nk nkp Sn U E Ep M : Z),
+  normalize_value_ok (fun rb ab => normalize 64 rb ab 0) (2 ^ 62) R ->
+  normalize_value_ok (bnorm wb) (2 ^ (wb - 2)) R ->
+  2 <= wb -> 1 <= b <= R -> 1 <= pb <= R -> 0 <= Sn -> 0 <= U ->
+  forall (pt : ccol) (sk : list poly) (us : nat -> Z) (epk u : poly) (es : list poly) (pk ct : list ccol) (d : ccol),
+  length sk = rank -> length es = S rank ->
+  Forall (fun s => length s = n /\ norm1 s <= Sn) sk -> length u = n -> norm1 u <= U ->
+  length epk = n -> Forall (fun e => length e = n) es ->
+  (forall k, (k < n)%nat -> Z.abs (nthZ epk k) <= Ep) ->
+  (forall i k, (k < n)%nat -> Z.abs (nthZ (nth i es []) k) <= E) ->
+  (forall k, (k < n)%nat -> bnd M (coef pt k)) -> 0 <= M ->
+  zn rank * 2 ^ (b - 1) + Ep <= 2 ^ 62 ->
+  Sn * 2 ^ (b - 1) <= 2 ^ (wb - 2) ->
+  U * 2 ^ (b - 1) + E + M <= 2 ^ (wb - 2) ->
+  zn rank * (Sn * 2 ^ (b - 1)) + 2 ^ (b - 1) <= 2 ^ (wb - 2) ->
+  enc_sk wb b n size rank nkp None sk us epk = Some pk ->
+  enc_pk wb b n size size nk (Some pt) u pk es = Some ct ->
+  dec_glwe wb b pb n size psize sk ct = Some d ->
+  forall k, (k < n)%nat -> forall P, zn size * b <= P -> zn psize * pb <= P -> 1 <= P ->
+    exists q, lval P b size (coef (hd [] ct) k) + lvsum P b size (prods_at n size sk (tl ct) k)
+              = lval P b size (coef pt k) + pk_error b rank nk nkp P sk u epk es k + q * 2 ^ P.
+Proof.
+  intros wb b pb R n size psize rank nk nkp Sn U E Ep M H1 H2 H3 H4 H5 H6 H7
+         pt sk us epk u es pk ct d A1 A2 A3 A4 A5 A6 A7 A8 A9 A10 A11 A12 A13 A14 A15 A16 A17 A18 k Hk P Q1 Q2 Q3.
+  destruct (pk_roundtrip wb b pb (fun x => 1 <= x <= R) n size psize rank nk nkp H1 H2 H3 H4 H5 (proj1 H4) Sn U E Ep M H6 H7
+              pt sk us epk u es pk ct d A1 A2 A3 A4 A5 A6 A7 A8 A9 A10 A11 A12 A13 A14 A15 A16 A17 A18 k Hk) as [_ V].
+  destruct (V P Q1 Q2 Q3) as [X _]. exact X.
+Qed.
